@@ -69,7 +69,12 @@ LONG = ["Auer", "PaVeBaGP-IH", "VOGP", "Auer-emp", "EpsilonPAL", "PartialGP-rect
 def long_run(mon, rng, k):
     """260-330 rounds of the same few designs (anything periodic in the round counter is passed several times)"""
     variant = LONG[k % len(LONG)]
-    case, order = runs.long_case(rng, variant)
+    if k % 3 == 2:
+        # two designs for more than 200 x 2 rounds: a cap expressed in rounds PER DESIGN is passed (seeded/U08)
+        case, order = runs.long_case(rng, variant, K=2, rounds=int(rng.integers(430, 520)))
+        mon.count("two_design_runs_beyond_400_rounds_attempted")
+    else:
+        case, order = runs.long_case(rng, variant)
     tr = runs.run_case(case, order, mon, max_extra_steps=0)
     mon.count("runs")
     mon.count("long_runs")
@@ -152,8 +157,7 @@ def directed_many_designs(mon, rng):
 
 def shard(mon, tier, rng, shard_no, nshards):
     for j in range(1 if tier == "quick" else 4):
-        if tier == "thorough" or shard_no % 2 == 0:
-            long_run(mon, rng, shard_no // 2 + j)
+        long_run(mon, rng, shard_no + j)
     if shard_no % 2 == 0 or tier == "thorough":
         for _ in range(1 if tier == "quick" else 6):
             directed_many_designs(mon, rng)
